@@ -56,6 +56,7 @@ type FuncContract struct {
 	At       []AtItem
 	Opaque   bool // trusted with no effect, arbitrary result
 	Used     bool
+	Assumes  []Clause // postconditions assumed at call sites but NOT checked against the body (listed as assumptions)
 	ForwardFrames bool // "hint forward-frames": frame axioms of array updates also trigger on reads of the old array
 	GhostSets []AtItem // ghost updates at function exit:  ghostset target := expr
 	Preserves []Clause // closure invariants: required at entry, ensured at exit
@@ -142,7 +143,7 @@ type MonitorInv struct {
 	E     Expr
 }
 
-var clauseKw = map[string]bool{"hint": true, "ghostset": true, "preserves": true, "calls": true, "requires": true, "ensures": true, "modifies": true, "assigns": true,
+var clauseKw = map[string]bool{"assumes": true, "hint": true, "ghostset": true, "preserves": true, "calls": true, "requires": true, "ensures": true, "modifies": true, "assigns": true,
 	"decreases": true, "wrapping": true, "loop": true, "at": true, "pure": true, "opaque": true,
 	"use": true, "by": true}
 var itemKw = map[string]bool{"spec": true, "lemma": true, "func": true, "interface": true, "trusted": true,
@@ -531,6 +532,18 @@ func parseContractFile(path, pkgPath string, requirePrefix bool) (*ContractFile,
 			} else {
 				return nil, fail("clause outside item")
 			}
+		case "assumes":
+			if curF == nil {
+				return nil, fail("assumes outside func")
+			}
+			c, err := parseClauseExpr(w, rest, ll.line, path)
+			if err != nil {
+				return nil, err
+			}
+			if c.Label == "" {
+				c.Label = fmt.Sprintf("asm%d", len(curF.Assumes)+1)
+			}
+			curF.Assumes = append(curF.Assumes, c)
 		case "hint":
 			if curF == nil {
 				return nil, fail("hint outside func")
